@@ -78,7 +78,7 @@ theorem read_cont_clean_iff_strict (w : Bytes) (it qo : Bool) (c : List Nat) :
   simp only [hlen, if_false]
   split
   · simp
-  · cases hq : readQuestions w (be ((w.drop 4).take 2)) { cur := 12, errs := [], counts := [0, 0, 0, 0] } with
+  · cases hq : readQuestions w (be ((w.drop 4).take 2)) { cur := 12, fur := 12, errs := [], counts := [0, 0, 0, 0] } with
     | unsupported => simp
     | raised e s => simp
     | ok s1 =>
